@@ -92,7 +92,7 @@ def observe(cfg, xs):
     """run the real code on one prefix; xs = list of Fractions (exact dyadics)"""
     n = len(xs)
     x = np.array([float(v) for v in xs], dtype=float)
-    obs = {"p": None, "hist": None, "eta": None, "lam": None, "exc": None, "mutated": False, "stateful": False, "int_differs": False}
+    obs = {"p": None, "hist": None, "eta": None, "lam": None, "exc": None, "mutated": False, "stateful": False, "int_differs": False, "u_late_differs": False}
     with warnings.catch_warnings():
         warnings.simplefilter("ignore")
         try:
@@ -109,6 +109,15 @@ def observe(cfg, xs):
             same = (float(p2) == obs["p"] or (p2 != p2 and obs["p"] != obs["p"])) and len(h2) == len(obs["hist"]) and all(
                 a == b or (a != a and b != b) for a, b in zip(h2, obs["hist"]))
             obs["stateful"] = not same
+            # the Audit code builds tests first and installs u later (test.u = ...): same answer required.  Only where the
+            # constructor derives nothing else from u (an explicit eta, or an estimator/bet that reads u when called)
+            if "eta" in cfg.get("kw", {}) or cfg.get("estim") in ("shrink_trunc", "optimal_comparison") or cfg["test"] not in ("alpha_mart", "wald_sprt"):
+                c0 = dict(cfg, u="1" if fr(cfg["u"]) != 1 else "2")
+                nm0 = make(c0)
+                nm0.u = float(fr(cfg["u"]))
+                p4, h4 = nm0.test(x.copy())
+                h4 = [float(v) for v in np.asarray(h4, dtype=float).ravel()]
+                obs["u_late_differs"] = not (feq(float(p4), obs["p"]) and len(h4) == len(obs["hist"]) and all(feq(a, b) for a, b in zip(h4, obs["hist"])))
             # a sample whose values are whole numbers may arrive as an integer array (0/1 ballots): same answer required
             if all(v.denominator == 1 for v in xs):
                 p3, h3 = make(cfg).test(np.array([int(v) for v in xs], dtype=int))
